@@ -189,6 +189,11 @@ CURATED = [
     "def p(a: bool, b: bool) -> bool:\n\tt = (a, b)\n\ta = not a\n\treturn all(t)",
     "def p(a: Qint[2], b: Qint[2]) -> Qint[4]:\n\tt = [a, b]\n\ta = 3\n\treturn sum(t)",
     "def p(a: Qint[2], b: Qint[2]) -> Qint[2]:\n\tt = [a, b]\n\tb = a\n\treturn max(t)",
+    # a constant list re-assigned with another length, then indexed by a variable; products of two constants
+    "def p(a: Qint[2]) -> Qint[2]:\n\tc = [1, 2]\n\tc = [3, 2, 1]\n\treturn c[a]",
+    "def p(a: Qint[2]) -> Qint[2]:\n\tc = [3, 2, 1, 0]\n\tc = [1, 2]\n\treturn c[a]",
+    "def p(a: Qint[2]) -> Qint[8]:\n\treturn Qint4(6) * Qint4(3) + a",
+    "def p(a: Qint[2]) -> Qint[8]:\n\treturn a + Qint4(2) * 3",
     # modulo: literal power of two, literal non-power (outside the subset), variable modulus
     "def p(a: Qint[4]) -> Qint[4]:\n\treturn a % 4",
     "def p(a: Qint[4]) -> Qint[4]:\n\treturn a % 3",
